@@ -27,6 +27,7 @@
  *   dump C                > dump path=value/P|V;...    walk by iterators from the root
  *   dumpat C P            > dump path=value/P|V;...    the same walk below the directory P
  *   open C FILE           > open <st>                  kdump_open_fd
+ *   fdopen C FILE         > fdopen <st>                kdump_set_attr(file.fd = descriptor): the legacy alias of file.set.0.fd
  *   popen C FILE          > open <st>  and  > predump <tree before the failure teardown | ->
  *   nfiles C N            (same as set C file.set.number num:N)
  *   nfilesoom C N K [SLOT STAGE]  > nfilesoom <st>     the same with the K-th allocation of the call failing (K beyond the
@@ -406,6 +407,17 @@ int main(void)
 			printf("> open %s%s\n", kstatus_name(st), c16_monitor(ctxs[c], st));
 			printf("> predump %s\n", cv_text ? cv_text : "-");
 			free(cv_text); cv_text = NULL;
+		} else if (sscanf(line, "fdopen %d %65535s", &c, a1) == 2) {
+			/* the legacy way of opening a dump: kdump_set_attr(ctx, "file.fd", descriptor) */
+			int fd = open(a1, O_RDONLY);
+			if (fd < 0) { puts("> fdopen nofile"); continue; }
+			if (dup2(fd, 100 + c) < 0) { puts("> fdopen nodup"); continue; }
+			close(fd);
+			nctxfd[c] = 0;
+			ctxfd[c][nctxfd[c]++] = 100 + c;
+			at.type = KDUMP_NUMBER; at.val.number = 100 + c;
+			st = kdump_set_attr(ctxs[c], "file.fd", &at);
+			show("fdopen", ctxs[c], st, NULL, NULL);
 		} else if (sscanf(line, "open %d %65535s", &c, a1) == 2) {
 			int fd = open(a1, O_RDONLY);
 			if (fd < 0) { puts("> open nofile"); continue; }
